@@ -32,7 +32,7 @@ def counters():
     return f() if f else None
 
 
-def make_config(rng, fn=None, big=False, coefs=None, maxvars=6):
+def make_config(rng, fn=None, big=False, coefs=None, maxvars=6, one_shot_ok=False):
     """Returns dict(fn, type, model, terms, kw, keys, kind) -- a documented-valid call."""
     fn = fn or rng.choice(FUNCS)
     spin, d2 = is_spin(fn), is_deg2(fn)
@@ -78,6 +78,14 @@ def make_config(rng, fn=None, big=False, coefs=None, maxvars=6):
             kw["schedule"] = tuple(kw["schedule"])
         if rng.random() < 0.15:
             kw["temperature_range"] = (2, 1)       # documented: ignored (with a warning) when an explicit schedule is given
+        r2 = rng.random()
+        if r2 < 0.15:
+            import numpy as np
+            kw["schedule"] = np.array(kw["schedule"], dtype=float)
+        elif r2 < 0.35 and one_shot_ok:
+            vals_ = list(kw["schedule"])           # "an iterable of floats": one-shot iterators are documented-valid
+            kw["schedule"] = (t for t in vals_) if rng.random() < 0.5 else iter(vals_)
+            kw["_schedule_values"] = vals_
     elif sch == "list0":
         kw["schedule"] = [0] * rng.randint(1, 3)
     elif sch == "empty":
@@ -144,8 +152,9 @@ def check_results(ctx, cfg, res, tag=""):
     elif res.best is not None:
         ctx.violation(tag + "best-on-empty", "best %r on empty results" % (res.best,), w)
         return False
-    if "initial_state" in kw and kw.get("schedule") is not None and not isinstance(kw["schedule"], str) \
-            and all(t == 0 for t in kw["schedule"]) and len(res):
+    sched = kw.get("_schedule_values", kw.get("schedule"))
+    if "initial_state" in kw and sched is not None and not isinstance(sched, str) \
+            and all(t == 0 for t in sched) and len(res):
         init = kw["initial_state"]
         iv = p.value({x: init[x] for x in tv})
         for r in res:
